@@ -48,6 +48,7 @@ PHASES = {
     ],
     "C14": [
         {"pkg": "e2", "test": "TestC14CrossNode", "phase": "C14/cross-node-delivery"},
+        {"pkg": "e2", "test": "TestC14FailedPeer", "phase": "C14/failed-peer"},
         # the inter-node wiring of package main: two real brokers on loopback ports, node B's RPC endpoint cut by a relay
         {"pkg": "e5", "test": "TestC14RealCluster", "phase": "C14/real-cluster-wiring"},
     ],
@@ -58,6 +59,7 @@ PHASES = {
         {"pkg": "e2", "test": "TestC12Takeover", "phase": "C12/client-id-takeover"},
         {"pkg": "e2", "test": "TestC12Chain3", "phase": "C12/chain-of-three"},
         {"pkg": "e2", "test": "TestC12Seams", "phase": "C12/takeover-seams"},
+        {"pkg": "e2", "test": "TestC12RealIdentifiers", "phase": "C12/real-session-identifiers"},
     ],
     "C11": [
         {"pkg": "e2", "test": "TestC11Lifecycle", "phase": "C11/session-lifecycle"},
